@@ -1252,6 +1252,10 @@ def compare_matrix(got, exp):
     """got: canonical impl value (list form); exp: dict of dicts of python numbers"""
     if isinstance(got, dict):
         return 'raised %s' % got.get('e')
+    if isinstance(got, list) and got and isinstance(got[0], str):
+        return 'the file was not read: %s' % ('FileNotFoundError (treated as an unknown name)' if got[0] == 'fnf' else got[0])
+    if not (isinstance(got, list) and all(isinstance(x, list) and len(x) == 2 and isinstance(x[1], list) for x in got)):
+        return 'driver value %r' % (got,)
     g = {}
     for r, row in got:
         if r in g:
@@ -1654,7 +1658,7 @@ LEVEL_TEXT = ('Machine-checked Coq theorems over the regenerated raw bytes of al
               'C20_insert_skipped_line). Numbers: the cell grammar of int() / float() (signs, leading zeros, underscores between digits, '
               'exponents) is a Gallina function compared with CPython on every generated word; canonical integers and decimals m/10^k are '
               'read back exactly (C20_number_round_trip), an underscore between digits does not change an integer (C20_int_underscore), '
-              'float("<m/10^k>e<x>") is m*10^x/10^k (C20_float_exponent). Call histories: a state machine of calls and caller-side edits '
+              'float("<m/10^k>e<x>") is m*10^x/10^k (C20_float_exponent); a pathlib.Path argument that is no file arrives as os.fspath(path), modelled by path_norm (compared with pathlib on every generated name), under which a bare name - also "./name", "name/", "name//" - is that name (C20_path_argument); C20_matrix_cell states the property cell by cell for matrices of numbers in any layout. Call histories: a state machine of calls and caller-side edits '
               '(C20_calls_independent, C20_objects_independent: every call hands out a new object holding the pure result of the argument '
               'and the current file content; the functools.lru_cache variant of the fixed defect F41 is refuted, C20_cached_variant_refuted). '
               'The hand-written model of submat() is tied to sugar by differential testing of all cells of all bundled files under several '
@@ -1666,8 +1670,8 @@ LEVEL_NOTE = ('Trusted: Coq kernel/vm_compute, tools/gens/c20.py (byte copy; len
               'UTF-8, as in the sandbox; letters beyond Latin-1 are covered by a relational check without model); float cells compared as '
               'exact decimals converted by Fraction (CPython float() rounding itself is trusted). Outside the modelled number domain '
               '(counted as drift, never compared): inf / infinity / nan cells, exponents of more than 3 digits, integers beyond the '
-              'int-string-conversion limit. Tested only, not proved: letters beyond code point 255; pathlib\'s normalisation of a Path '
-              'argument that is no file (the harness hands the model os.fspath of the same Path); that os.path.isfile is what fs_file says '
+              'int-string-conversion limit. Tested only, not proved: letters beyond code point 255; that pathlib normalises a Path as path_norm says (POSIX flavour; compared on every Path case); '
+              'that os.path.isfile is what fs_file says '
               '(compared on real directories with symbolic links incl. chains of 39..42 links; absolute links and path normalisation not '
               'modelled); the heap model of histories is compared with object identities (is) and final contents of every returned dict '
               'and row dict, there is no model of the interpreter state beyond that. A trailing "# ..." after the cells is not a comment '
